@@ -1017,6 +1017,9 @@ class Gen:
         elif r < 0.78 and cols:
             k = rng.randrange(1, len(cols) + 1)
             q["proj"] = [["VAR", v, None] for v in rng.sample(cols, k)]
+        if top and q["proj"] != "*" and not q["group_by"] and rng.random() < 0.03:
+            q["group_by"] = [v for _, v, _ in q["proj"]]        # GROUP BY without an aggregate (class group-by-without-aggregate)
+            self.count("group_by_no_aggregate")
         outc = columns(q)
         if rng.random() < 0.3:
             q["distinct"] = True
